@@ -291,11 +291,34 @@ func runC16(c *Ctx) {
 				return
 			}
 			cl := w.closureBody(mc)
-			rm := w.Func("allocation", "Allocation", "RemoveTCPConnection")
+			// the removal: a call (whatever its name) that reaches delete(x.tcpConnections, id)
+			// and is handed this connection's id
+			tcpTbl := w.Field("allocation", "Allocation", "tcpConnections")
+			removes := w.mayContain(func(i3 ssa.Instruction) bool {
+				dc, ok := i3.(*ssa.Call)
+				if !ok {
+					return false
+				}
+				b, isB := dc.Call.Value.(*ssa.Builtin)
+				if !isB || b.Name() != "delete" {
+					return false
+				}
+				_, f, isL := fieldLoad(dc.Call.Args[0])
+				return isL && f == tcpTbl
+			})
 			okCl := false
 			w.eachInstrDeep(cl, func(in2 ssa.Instruction) {
 				call, ok := in2.(*ssa.Call)
-				if !ok || call.Call.StaticCallee() != rm {
+				if !ok || call.Call.StaticCallee() == nil || !w.IsMod[call.Call.StaticCallee()] || !removes(call.Call.StaticCallee()) {
+					return
+				}
+				hasKey := false
+				for _, a := range call.Call.Args {
+					if w.sameKey(a, store.Key) {
+						hasKey = true
+					}
+				}
+				if !hasKey {
 					return
 				}
 				notBound := false
@@ -305,8 +328,16 @@ func runC16(c *Ctx) {
 							notBound = true
 						}
 					}
+					// or: the timer itself claimed the single use (nobody had bound it)
+					if f.Op == "true" {
+						if lc, _ := callOf(f.X); lc != nil {
+							if _, when, isClaim := w.singleUseClaim(lc); isClaim && f.Truth == when {
+								notBound = true
+							}
+						}
+					}
 				}
-				if notBound && w.sameKey(call.Call.Args[2], store.Key) {
+				if notBound {
 					okCl = true
 				}
 			})
@@ -776,12 +807,10 @@ func ruleSingleUseOwner(c *Ctx, rule string) {
 				if isUserEq(f) {
 					okUser = true
 				}
-				if f.Op == "true" && !f.Truth {
-					if call, _ := callOf(f.X); call != nil && call.Call.StaticCallee() != nil && call.Call.StaticCallee().String() == "(*sync/atomic.Bool).Swap" {
-						if b, fl, ok := fieldLoadAddr(call.Call.Args[0]); ok && nm(fl) == "isBound" && w.sameKey(b, v) {
-							if k, isC := call.Call.Args[1].(*ssa.Const); isC && k.Value != nil && k.Value.String() == "true" {
-								okSwap = true
-							}
+				if f.Op == "true" {
+					if call, _ := callOf(f.X); call != nil {
+						if b, wantTruth, ok := w.singleUseClaim(call); ok && f.Truth == wantTruth && w.sameKey(b, v) {
+							okSwap = true
 						}
 					}
 				}
@@ -804,7 +833,10 @@ func ruleSingleUseOwner(c *Ctx, rule string) {
 		nSwap := 0
 		w.eachInstrDeep(fn, func(in ssa.Instruction) {
 			call, ok := in.(*ssa.Call)
-			if !ok || call.Call.StaticCallee() == nil || call.Call.StaticCallee().String() != "(*sync/atomic.Bool).Swap" {
+			if !ok {
+				return
+			}
+			if _, _, isClaim := w.singleUseClaim(call); !isClaim || in.Parent() != fn && !w.partOf(in.Parent(), fn) {
 				return
 			}
 			nSwap++
@@ -817,7 +849,7 @@ func ruleSingleUseOwner(c *Ctx, rule string) {
 			if okUser {
 				c.OK(rule, fname(fn), "swap order", w.instrPos(in), "the single use is consumed only after the user matched")
 			} else {
-				c.Bad(rule, fname(fn), "swap order", w.instrPos(in), "isBound.Swap(true) runs before / without the user test: a ConnectionBind by another user is refused but burns the connection's single use (the owner can no longer bind it and the bind timer no longer reaps it)")
+				c.Bad(rule, fname(fn), "swap order", w.instrPos(in), "the single-use claim (isBound.Swap(true) / CompareAndSwap(false, true)) runs before / without the user test: a ConnectionBind by another user is refused but burns the connection's single use (the owner can no longer bind it and the bind timer no longer reaps it)")
 			}
 		})
 		if nSwap == 0 {
@@ -825,4 +857,40 @@ func ruleSingleUseOwner(c *Ctx, rule string) {
 		}
 	}
 
+}
+
+// singleUseClaim: call consumes the single use of a peer connection — isBound.Swap(true)
+// (claimed iff it returned false) or isBound.CompareAndSwap(false, true) (claimed iff true),
+// directly or through a one-line helper of tcpConnection returning the latter. Returns the
+// connection object, and the truth value of the call's result that means "claimed".
+func (w *World) singleUseClaim(call *ssa.Call) (obj ssa.Value, claimedWhen bool, ok bool) {
+	isConst := func(v ssa.Value, want string) bool {
+		k, isC := v.(*ssa.Const)
+		return isC && k.Value != nil && k.Value.String() == want
+	}
+	h := call.Call.StaticCallee()
+	if h == nil {
+		return nil, false, false
+	}
+	switch h.String() {
+	case "(*sync/atomic.Bool).Swap":
+		if b, fl, isF := fieldLoadAddr(call.Call.Args[0]); isF && nm(fl) == "isBound" && isConst(call.Call.Args[1], "true") {
+			return b, false, true
+		}
+	case "(*sync/atomic.Bool).CompareAndSwap":
+		if b, fl, isF := fieldLoadAddr(call.Call.Args[0]); isF && nm(fl) == "isBound" && isConst(call.Call.Args[1], "false") && isConst(call.Call.Args[2], "true") {
+			return b, true, true
+		}
+	}
+	if w.IsMod[h] && len(h.Params) == 1 && len(call.Call.Args) == 1 {
+		rets := returnsOf(h)
+		if len(rets) == 1 && len(rets[0].Results) == 1 {
+			if inner, isC := rets[0].Results[0].(*ssa.Call); isC {
+				if b, when, ok2 := w.singleUseClaim(inner); ok2 && stripIface(w.resolveLoad(b)) == ssa.Value(h.Params[0]) {
+					return call.Call.Args[0], when, true
+				}
+			}
+		}
+	}
+	return nil, false, false
 }
